@@ -265,6 +265,13 @@ class UnitRegistry:
         equiv = sorted(set(equiv))
         return equiv
 
+    def __copy__(self):
+        # the copy gets a table and a unit cache of its own: two registry
+        # objects writing into one dict would not be two registries
+        return type(self)(
+            lut=dict(self.lut), add_default_symbols=False, unit_system=self.unit_system
+        )
+
     def __deepcopy__(self, memodict=None):
         lut = copy.deepcopy(self.lut)
         # the table is complete: re-adding the default symbols would undo
